@@ -65,6 +65,16 @@ type Shared struct {
 	Reached     map[string]bool
 	Declared    map[string]bool
 	Assumptions map[string]bool
+	Forks       map[string]int
+}
+
+func (s *Shared) noteFork(site string) {
+	s.mu.Lock()
+	if s.Forks == nil {
+		s.Forks = map[string]int{}
+	}
+	s.Forks[site]++
+	s.mu.Unlock()
 }
 
 func (s *Shared) isReached(id string) bool {
@@ -404,7 +414,7 @@ func (in *Interp) doAssert(id string, c Bool, finding string, pred Bool) {
 	neg := in.tc.Not(ct)
 	known := finding != "" && in.cfg.Known[finding]
 	report := func(extra []*Term, isKnown bool) bool {
-		res, vals := in.sol.CheckModel(extra, in.tapeTerms())
+		res, vals := in.sol.CheckAssert(extra, in.tapeTerms())
 		switch res {
 		case Sat:
 			v := Violation{Harness: in.cfg.Harness, ID: id, Kind: "assert-fail", Pos: in.posString(), Finding: finding,
